@@ -435,7 +435,10 @@ def finish(ctx):
     ev = {"property_id": ctx.pid, "tier": ctx.tier, "seed": ctx.seed, "level": ctx.level,
           "coverage": ctx.cov, "assumptions": ctx.assumptions, "wall_s": round(time.time() - ctx.t0, 1),
           "violations": len(ctx.violations), "known_findings": ctx.known}
-    with open(os.path.join(EVID, ctx.pid + ".json"), "w") as f:
+    # evidence/<id>.json describes runs against /repo itself; runs on a scratch worktree ($VERIF_REPO) write elsewhere
+    evdir = EVID if REPO == "/repo" else os.path.join(ROOT, ".scratch_evidence")
+    os.makedirs(evdir, exist_ok=True)
+    with open(os.path.join(evdir, ctx.pid + ".json"), "w") as f:
         json.dump(ev, f, indent=1)
     for k in ctx.known:
         print(k)
